@@ -365,6 +365,11 @@ func c11(r *Run) {
 	r.Swarm["dual"] = dual
 	ps := &recPS{inner: &peer_store.InMemory{}}
 	cfg := &dht.ServerConfig{NoSecurity: true, PeerStore: ps}
+	if ch.Chance(1, 2, "cfg.announcehook") {
+		// an application callback next to the peer store: both are served
+		cfg.OnAnnouncePeer = func(metainfo.Hash, net.IP, int, bool) {}
+		r.Probe("announce-hook-and-peer-store")
+	}
 	local := &net.UDPAddr{IP: net.IPv4(198, 51, 100, 20).To4(), Port: 6881}
 	if dual {
 		local.IP = local.IP.To16()
